@@ -19,10 +19,11 @@ PROPERTY = "C05"
 RULE = (
     "history = sequence (<=25 quick / <=60 thorough steps) of {with <spec>, leave (normal | by exception), "
     "global-activate <spec>, global-deactivate <any active>, call <plan>, refused activation <kind>, "
-    "fresh-probe probe} over 9 probe specs with overlapping selectors on fa/fb/fc (immediate, chain, "
-    "total, overridable, two-selector, strict reducer). evaluations = operations applied. A history is "
+    "fresh-probe probe, start / advance / close / drop a generator object} over 12 probe specs with overlapping "
+    "selectors on fa/fb/fc/ga (immediate, chain, sibling calls, total, overridable, two-selector, strict reducer). evaluations = operations applied. A history is "
     "non-trivial when a call happens after a non-LIFO deactivation, after an exceptional exit or after a "
-    "refused activation, with >=2 probes having been active together; distinct by history hash."
+    "refused activation, with >=2 probes having been active together, or a generator object lives across a "
+    "change of the active set; distinct by history hash."
 )
 ASSUMPTIONS = [
     "an empty handler collection is as good as None at quiescence",
